@@ -1,4 +1,5 @@
 import IofloModel.Lemmas.Containers
+import IofloModel.Lemmas.OsetLinks
 /-!
 # C39 — ordered dictionaries and ordered sets behave like their models
 
@@ -20,7 +21,7 @@ def Op.toA : Op K V → AOp K V
   | .copy => .copy | .create ps => .create ps | .sift fs => .sift fs | .insert i k v => .insert i k v
   | .pop k d => .pop k d | .popitem => .popitem | .reorder o => .reorder (absOf o)
   | .reorderBad => .reorderBad | .setdefault k d => .setdefault k d | .update ps => .update ps
-  | .eq o => .eq (absOf o)
+  | .eq o => .eq (absOf o) | .reversed => .reversed | .ior ps => .ior ps | .or ps => .or ps
 
 /-- objects passed by reference are well formed -/
 def Op.ArgsInv : Op K V → Prop
@@ -150,6 +151,14 @@ theorem C39_odict_refines_ordered_map (s : OD K V) (m : List (K × V)) (op : Op 
   | eq o =>
     have ho : Rel o (absOf o) := Inv.rel ha
     exact ⟨h, by simp [OD.step, Op.toA, Spec.step, Out.toA, h.eq ho], trivial⟩
+  | reversed => exact ⟨h, by simp [OD.step, Op.toA, Spec.step, h.keys, Out.toA], trivial⟩
+  | ior ps => exact ⟨h.update ps, rfl, trivial⟩
+  | or ps =>
+    have hc : Rel (OD.init m) m := by
+      have := Rel.init (K := K) (V := V) m; rwa [fromPairs_self m h.nodupM] at this
+    have hu := hc.update ps
+    simp only [OD.step, OD.copy, h.items, Op.toA, Spec.step, Out.toA, Out.ObjInv]
+    exact ⟨h, by rw [(rel_iff.1 hu).2], hu.inv⟩
 
 /-- **odict, every history**: any sequence of calls on a well formed odict is matched call by call by the
 reference ordered dictionary: same results/exceptions, same final contents. -/
@@ -338,6 +347,26 @@ theorem C39_lodict_refines_lowered_map (hl : ∀ k, lower (lower k) = lower k)
     obtain ⟨h1, h2⟩ := LOD.update_rel hl h ps
     simp only [LOD.step, Op.toA, AOp.lower, Spec.step, h1]
     exact ⟨h2, rfl, trivial⟩
+  | reversed => exact simple .reversed rfl rfl trivial (by intro o; simp [OD.step])
+  | ior ps =>
+    obtain ⟨h1, h2⟩ := LOD.update_rel hl h ps
+    simp only [LOD.step, Op.toA, AOp.lower, Spec.step, h1]
+    exact ⟨h2, rfl, trivial⟩
+  | or ps =>
+    obtain ⟨c, hc1, hc2, hc3⟩ := hcopy m hlm
+    rw [fromPairs_self m h.nodupM] at hc2
+    obtain ⟨u1, u2⟩ := LOD.update_rel hl hc2 ps
+    have hlu : Lowered lower (LOD.update lower c ps).1 := by
+      refine (u2.lowered).2 ?_
+      have := loweredM_step hl hlm (AOp.update ps)
+      simpa [AOp.lower, Spec.step] using this
+    simp only [LOD.step, LOD.copy, h.items, hc1, Op.toA, AOp.lower, Spec.step]
+    generalize LOD.update lower c ps = r at u1 u2 hlu
+    obtain ⟨c', o⟩ := r
+    simp only at u1 u2 hlu
+    subst u1
+    simp only [Out.toA, Out.ObjLowered]
+    exact ⟨h, by rw [(rel_iff.1 u2).2], u2.inv, hlu⟩
 
 /-- the call with every literal key argument rewritten by `f` (e.g. upper-cased, capitalised, …) -/
 def Op.mapKeys (f : K → K) : Op K V → Op K V
@@ -346,6 +375,7 @@ def Op.mapKeys (f : K → K) : Op K V → Op K V
   | .create ps => .create (ps.map (fun p => (f p.1, p.2))) | .sift (some fs) => .sift (some (fs.map f))
   | .insert i k v => .insert i (f k) v | .pop k d => .pop (f k) d
   | .setdefault k d => .setdefault (f k) d | .update ps => .update (ps.map (fun p => (f p.1, p.2)))
+  | .ior ps => .ior (ps.map (fun p => (f p.1, p.2))) | .or ps => .or (ps.map (fun p => (f p.1, p.2)))
   | op => op
 
 /-- **lodict is case-insensitive in every call**: spelling the keys of a call differently (any `f` that
@@ -360,6 +390,11 @@ theorem C39_lodict_case_insensitive (f : K → K) (hf : ∀ k, lower (f k) = low
     rfl
   | update ps =>
     simp only [Op.mapKeys, LOD.step, LOD.update, LOD.setitem, List.foldl_map, hf]
+  | ior ps =>
+    simp only [Op.mapKeys, LOD.step, LOD.update, LOD.setitem, List.foldl_map, hf]
+  | or ps =>
+    simp only [Op.mapKeys, LOD.step, LOD.update, LOD.setitem, List.foldl_map, hf]
+  | reversed => rfl
   | sift fs =>
     cases fs with
     | none => rfl
@@ -725,7 +760,7 @@ def MOp.toA : MOp K V → AMOp K V
   | .setdefault k d => .setdefault k d | .pop k d i => .pop k d i | .poplist k d => .poplist k d
   | .popitem l i => .popitem l i | .poplistitem l => .poplistitem l | .fromkeys sq d => .fromkeys sq d
   | .update ps => .update ps | .updateFrom o => .updateFrom (absOf o) | .create ps => .create ps
-  | .eq o => .eq (absOf o)
+  | .eq o => .eq (absOf o) | .reversed => .reversed | .ior ps => .ior ps | .or ps => .or ps
 
 def MOp.ArgsInv : MOp K V → Prop
   | .updateFrom o => Inv o
@@ -927,6 +962,17 @@ theorem C39_modict_refines_multimap (s : OD K (List V)) (m : List (K × List V))
     have ho : Rel o (absOf o) := Inv.rel ha
     refine ⟨⟨h, hne⟩, ?_, trivial⟩
     simp only [MD.step, MOp.toA, MSpec.step, MOut.toA, h.eq ho]
+  | reversed => exact ⟨⟨h, hne⟩, by simp [MD.step, MOp.toA, MSpec.step, h.keys, MOut.toA], trivial⟩
+  | ior ps => exact ⟨⟨h.maddAll ps, MSpec.nonEmpty_addAll hne ps⟩, rfl, trivial⟩
+  | or ps =>
+    have hc : Rel (MD.update OD.empty (MSpec.all m)) m := by
+      have := (Rel.empty (K := K) (V := List V)).maddAll (MSpec.all m)
+      rwa [MSpec.addAll_all [] m (by simpa using h.nodupM) hne, List.nil_append] at this
+    have e : MD.copy s = .ok (MD.update OD.empty (MSpec.all m)) := by
+      simp [MD.copy, MD.updateFrom, MD.allitems, h.items, MSpec.all]
+    obtain ⟨o1, o2⟩ := hobj _ _ (hc.maddAll ps) (MSpec.nonEmpty_addAll hne ps)
+    simp only [MD.step, e, MOp.toA, MSpec.step]
+    exact ⟨⟨h, hne⟩, o1, o2⟩
 
 /-- **modict, every history** -/
 theorem C39_modict_history (ops : List (MOp K V)) (s : OD K (List V)) (m : List (K × List V))
@@ -1148,6 +1194,168 @@ example : (OSet.step [1, 2, 18, 3, 4] (.xor (.set [19, 9, 13, 1, 12, 2]))).2 = .
 example : (OSet.step [3, 1, 2] (.and (.list [2, 2, 3]))).2 = .obj [2, 3] := by decide
 example : OSet.step [1, 2, 18, 3, 4] (.pop false) = ([2, 18, 3, 4], .key 1) := by decide
 example : OSet.step [1, 2, 18, 3, 4] .clear = ([], .none) := by decide
+
+/-! ## oset at the level of its cells: the doubly linked list and the map represent the list of keys -/
+section OSetLinks
+variable {K : Type} [DecidableEq K]
+open Links
+
+/-- the linked structure `s` represents the duplicate-free list `l` (its keys in link order) -/
+def LRel (s : LL K) (l : List K) : Prop := ∃ ps, Repr s ps ∧ dkeys ps = l
+
+theorem split_at_key {ps : List (K × Nat)} {k : K} (h : k ∈ dkeys ps) :
+    ∃ a c b, ps = a ++ (k, c) :: b ∧ k ∉ dkeys a := by
+  induction ps with
+  | nil => simp at h
+  | cons p t ih =>
+    obtain ⟨x, y⟩ := p
+    by_cases e : x = k
+    · subst e; exact ⟨[], y, t, rfl, by simp⟩
+    · simp only [dkeys_cons, List.mem_cons] at h
+      rcases h with h | h
+      · exact absurd h.symm e
+      · obtain ⟨a, c, b, rfl, hk⟩ := ih h
+        refine ⟨(x, y) :: a, c, b, rfl, ?_⟩
+        simp only [dkeys_cons, List.mem_cons, not_or]
+        exact ⟨fun x' => e x'.symm, hk⟩
+
+/-- the cell-level primitives of `oset` on the structure, as calls -/
+def Links.step (s : LL K) : SOp K → Option (LL K × SOut K)
+  | .add k => some (Links.add s k, .none)
+  | .discard k => some (Links.discard s k, .none)
+  | .pop last => let r := Links.pop s last; some (r.1, match r.2 with | .ok k => .key k | .error e => .err e)
+  | .contains k => some (s, .bool (Links.contains s k))
+  | .len => some (s, .nat (Links.len s))
+  | .iter => some (s, .keys (Links.iter s))
+  | .reversed => some (s, .keys (Links.reversed s))
+  | _ => none
+
+theorem LRel.discard {s : LL K} {l : List K} (h : LRel s l) (k : K) :
+    LRel (Links.discard s k) (OSet.discard l k) := by
+  obtain ⟨ps, hr, rfl⟩ := h
+  by_cases hk : k ∈ dkeys ps
+  · obtain ⟨a, c, b, rfl, hka⟩ := split_at_key hk
+    refine ⟨a ++ b, hr.discard_mem, ?_⟩
+    simp only [OSet.discard, dkeys_append, dkeys_cons]
+    rw [List.erase_append, if_neg hka]; simp
+  · rw [hr.discard_not_mem hk]
+    exact ⟨ps, hr, by simp [OSet.discard, List.erase_of_not_mem hk]⟩
+
+/-- **oset, the linked structure, one primitive call**: `add`, `discard`, `pop`, `in`, `len`, iteration and
+reversed iteration on the sentinel/cells/map structure give exactly what the list model of
+`Model/Containers.lean` gives, and the structure keeps representing the resulting list (well-formed
+ring of `next`/`prev` links through exactly the mapped cells, in order). -/
+theorem C39_oset_links_refine_list (s : LL K) (l : List K) (op : SOp K) (h : LRel s l)
+    (r : LL K × SOut K) (hstep : Links.step s op = some r) :
+    r.2 = (OSet.step l op).2 ∧ LRel r.1 (OSet.step l op).1 := by
+  obtain ⟨ps, hr, hl⟩ := h
+  cases op with
+  | add k =>
+    simp only [Links.step, Option.some.injEq] at hstep; subst hstep
+    refine ⟨rfl, ?_⟩
+    subst hl
+    by_cases hk : k ∈ dkeys ps
+    · rw [hr.add_of_mem hk]; exact ⟨ps, hr, by simp [OSet.step, OSet.add, hk]⟩
+    · exact ⟨_, hr.add_new hk, by simp [OSet.step, OSet.add, hk]⟩
+  | discard k =>
+    simp only [Links.step, Option.some.injEq] at hstep; subst hstep
+    exact ⟨rfl, LRel.discard ⟨ps, hr, hl⟩ k⟩
+  | contains k =>
+    simp only [Links.step, Option.some.injEq] at hstep; subst hstep
+    subst hl
+    refine ⟨?_, ps, hr, rfl⟩
+    simp only [OSet.step, Links.contains, SOut.bool.injEq]
+    rw [Bool.eq_iff_iff, hr.mem_iff]; simp
+  | len =>
+    simp only [Links.step, Option.some.injEq] at hstep; subst hstep
+    subst hl
+    exact ⟨by simp [OSet.step, hr.len_eq, dkeys], ps, hr, rfl⟩
+  | iter =>
+    simp only [Links.step, Option.some.injEq] at hstep; subst hstep
+    subst hl
+    exact ⟨by simp [OSet.step, hr.iter_eq], ps, hr, rfl⟩
+  | reversed =>
+    simp only [Links.step, Option.some.injEq] at hstep; subst hstep
+    subst hl
+    exact ⟨by simp [OSet.step, hr.reversed_eq], ps, hr, rfl⟩
+  | pop last =>
+    simp only [Links.step, Option.some.injEq] at hstep; subst hstep
+    subst hl
+    have hlen := hr.len_eq
+    simp only [Links.len] at hlen
+    cases hps : ps with
+    | nil =>
+      subst hps
+      simp only [List.length_nil] at hlen
+      cases last <;> simp [Links.pop, hlen, OSet.step, OSet.pop] <;> exact ⟨[], hr, rfl⟩
+    | cons p0 t =>
+      have hne : ¬ s.map.length = 0 := by rw [hlen, hps]; simp
+      obtain ⟨e, he, hlast⟩ := hr.last_cell
+      obtain ⟨e', he', hfirst⟩ := chain_first hr.fwd
+      rw [he] at he'; cases he'
+      -- the pair whose key `pop` reads
+      have hpair : ∃ q ∈ ps, q.2 = (if last then e.prev else e.next) ∧
+          (if last then (dkeys ps).getLast? else (dkeys ps).head?) = some q.1 := by
+        cases last with
+        | true =>
+          simp only [if_true]
+          have hl' : (ps.map Prod.snd).getLast? = ps.getLast?.map Prod.snd := List.getLast?_map
+          cases hgl : ps.getLast? with
+          | none => rw [List.getLast?_eq_none_iff.1 hgl] at hps; cases hps
+          | some q =>
+            refine ⟨q, List.mem_of_getLast? hgl, ?_, by simp [dkeys, List.getLast?_map, hgl]⟩
+            rw [List.getLast?_cons, hl', hgl] at hlast
+            simpa using hlast
+        | false =>
+          simp only [Bool.false_eq_true, if_false]
+          refine ⟨p0, by rw [hps]; simp, ?_, by rw [hps]; simp⟩
+          rw [hfirst, hps]; simp
+      obtain ⟨q, hq, hq2, hq1⟩ := hpair
+      obtain ⟨cq, hcq, hkey⟩ := hr.cellKey q hq
+      have hpop : Links.pop s last = (Links.discard s q.1, .ok q.1) := by
+        simp only [Links.pop, hne, if_false, he, ← hq2, hcq, hkey]
+      have hopop : OSet.pop (dkeys ps) last = (OSet.discard (dkeys ps) q.1, .ok q.1) := by
+        simp only [OSet.pop, hq1]
+      rw [← hps, hpop]
+      simp only [OSet.step, hopop]
+      exact ⟨trivial, LRel.discard ⟨ps, hr, rfl⟩ q.1⟩
+  | remove _ => simp [Links.step] at hstep
+  | clear => simp [Links.step] at hstep
+  | or _ => simp [Links.step] at hstep
+  | and _ => simp [Links.step] at hstep
+  | sub _ => simp [Links.step] at hstep
+  | rsub _ => simp [Links.step] at hstep
+  | xor _ => simp [Links.step] at hstep
+  | ior _ => simp [Links.step] at hstep
+  | iand _ => simp [Links.step] at hstep
+  | ixor _ => simp [Links.step] at hstep
+  | isub _ => simp [Links.step] at hstep
+  | ixorSelf => simp [Links.step] at hstep
+  | isubSelf => simp [Links.step] at hstep
+  | isdisjoint _ => simp [Links.step] at hstep
+  | le _ => simp [Links.step] at hstep
+  | lt _ => simp [Links.step] at hstep
+  | ge _ => simp [Links.step] at hstep
+  | gt _ => simp [Links.step] at hstep
+  | eq _ => simp [Links.step] at hstep
+
+/-- a new `oset()` represents the empty list; `oset(iterable)` the first occurrences of the iterable -/
+theorem C39_oset_links_init (it : List K) : LRel (Links.init it) (OSet.init it) := by
+  have : ∀ (it : List K) (s : LL K) (l : List K), LRel s l → LRel (it.foldl Links.add s) (it.foldl OSet.add l) := by
+    intro it
+    induction it with
+    | nil => intro s l h; exact h
+    | cons k t ih =>
+      intro s l h
+      exact ih _ _ (C39_oset_links_refine_list s l (.add k) h _ rfl).2
+  exact this it _ _ ⟨[], Repr.empty, rfl⟩
+
+end OSetLinks
+
+/-! non-vacuity: the linked structure after add a, add b, add c, discard b, add d -/
+example : Links.iter (Links.discard (Links.init [1, 2, 3]) 2) = [1, 3] := by decide
+example : Links.reversed (Links.add (Links.discard (Links.init [1, 2, 3]) 2) 4) = [4, 3, 1] := by decide
+example : (match (Links.pop (Links.init [1, 2, 3]) false).2 with | .ok k => k | .error _ => 0) = 1 := by decide
 
 /-! ## laws of the reference dictionary that are not visible in its definition -/
 section Laws
